@@ -28,6 +28,13 @@ def main(argv):
         fn = mod.make_harness(params)
     else:
         params = None
+        if not hasattr(mod, "replay_extra"):
+            # a violation of the non-symbolic part of a check (corpus sweep, z3 language query, BMC): it was computed concretely
+            # on the real code in the first place; the way to see it again is the check itself
+            print("REPLAY " + json.dumps({"violated": None, "key": None,
+                                          "msg": "violation of the concrete part of the check (no symbolic witness to replay): "
+                                                 "re-run the check to reproduce it"}))
+            return 0
         fn = mod.replay_extra
     out = {"violated": False, "key": None, "msg": None}
     kwargs = {k: _unjson(v) for k, v in args.items()} if isinstance(args, dict) else {}
